@@ -157,7 +157,13 @@ MostAlignedType *stoAlloc(unsigned code, ULong size)
 {
 	struct v_blk *b;
 	(void)code;
+#ifdef V_STO_PAD
+	/* FOAM nodes are allocated with only the used prefix of union foam and then accessed through the
+	 * union type; pad the block so that the strict object-bounds model does not flag that idiom */
+	b = (struct v_blk *) malloc(sizeof(struct v_blk) + size + V_STO_PAD);
+#else
 	b = (struct v_blk *) malloc(sizeof(struct v_blk) + size);
+#endif
 #ifdef V_CBMC
 	__CPROVER_assume(b != 0);
 #else
@@ -169,7 +175,11 @@ MostAlignedType *stoAlloc(unsigned code, ULong size)
 
 void stoFree(Pointer p)
 {
+#ifdef V_STO_NOFREE
+	(void) p;          /* blocks are never reused; operands may be static harness objects */
+#else
 	if (p) free(((struct v_blk *)p) - 1);
+#endif
 }
 
 ULong stoSize(Pointer p)
